@@ -1,5 +1,5 @@
 from collections.abc import Callable
-from typing import TypeVar
+from typing import TypeVar, cast
 
 from reactivex import ConnectableObservable, Observable, abc, typing
 from reactivex import operators as ops
@@ -57,8 +57,15 @@ def replay_(
             return ReplaySubject(buffer_size, window, scheduler)
 
         return ops.multicast(subject_factory=subject_factory, mapper=mapper)
-    rs: ReplaySubject[_TSource] = ReplaySubject(buffer_size, window, scheduler)
-    return ops.multicast(subject=rs)
+    def replay(source: Observable[_TSource]) -> ConnectableObservable[_TSource]:
+        # A replay subject per application of the operator: sources must not
+        # share one buffer.
+        rs: ReplaySubject[_TSource] = ReplaySubject(buffer_size, window, scheduler)
+        return cast(
+            ConnectableObservable[_TSource], ops.multicast(subject=rs)(source)
+        )
+
+    return replay
 
 
 __all__ = ["replay_"]
